@@ -87,8 +87,18 @@ json_t json_t__ctor0(void) { return ROOT_JSON; }      /* the reply object */
 str_t json_t__toStyledString(json_t j) { return nondet_str(); }
 str_t str_t__c_str(str_t s) { return s; }
 uint64_t ext__strlen(str_t s) { return 1; }
+/* ghost wall clock: every blocking call on the client socket may take up to the 2 s SO_RCVTIMEO / SO_SNDTIMEO that
+ * runSocket() sets on it (ASSUMED: the reply is written within one send-timeout window) */
+tp_t g_now; uint64_t nondet_u64(void);
+static inline void io_may_block(void)
+{ uint64_t d = nondet_u64(); __CPROVER_assume(d <= 2000000000UL);
+  uint64_t ns = (uint64_t)g_now.nsec + d;                    /* < 3e9 */
+  if (ns >= 2000000000UL) { g_now.sec = g_now.sec + 2; ns = ns - 2000000000UL; } else if (ns >= 1000000000UL) { g_now.sec = g_now.sec + 1; ns = ns - 1000000000UL; }
+  g_now.nsec = (int32_t)ns; }
+tp_t ext__now(void) { return g_now; }
 int64_t ext__read(int fd, void *buf, uint64_t n)
 {
+  io_may_block();
   int r = nondet_int(); __CPROVER_assume(r >= -1 && r <= 1);
   if (r == 1) { int ci = nondet_int(); __CPROVER_assume(ci >= -128 && ci <= 127); char c = (char)ci; *(char *)buf = c;
     if (g_reads == 0) { g_byte0 = c; g_byte0_valid = (c != '\n' && c != '\0'); } }
@@ -96,24 +106,27 @@ int64_t ext__read(int fd, void *buf, uint64_t n)
   return r;
 }
 int ext__close(int fd) { g_closes = g_closes + 1; return nondet_bool() ? 0 : -1; }
-int64_t Util__writeFull(int fd, str_t buf, uint64_t n) { g_replies = g_replies + 1; return nondet_bool() ? (int64_t)n : -1; }
+int64_t Util__writeFull(int fd, str_t buf, uint64_t n) { io_may_block(); g_replies = g_replies + 1; return nondet_bool() ? (int64_t)n : -1; }
 void condvar_t__notify_one(condvar_t c) { }
 uint64_t g_first_read_result_ok;   /* the first read() delivered a byte that is not a terminator */
 void Stats__processMsg(Stats *self, int sockfd)
   __CPROVER_requires(__CPROVER_is_fresh(self, sizeof(*self)) && self == g_self && self->stats_mutex_ != self->thread_mutex_ && LOCKS_WF && MAP_WF && ghost_exc == 0)
-  __CPROVER_requires(g_reads == 0 && g_replies == 0 && g_closes == 0 && self->thread_count_ >= 1 && self->thread_count_ <= 1000000 && !g_byte0_valid)
+  __CPROVER_requires(TP_VALID(g_now) && g_reads == 0 && g_replies == 0 && g_closes == 0 && self->thread_count_ >= 1 && self->thread_count_ <= 1000000 && !g_byte0_valid)
   __CPROVER_assigns(self->thread_count_, g_held_stats, g_held_thread, g_stats_locks, g_thread_locks, g_k_in, g_k_val, g_kpos, g_map_n, g_other_slot, g_reads, g_replies,
-                    g_closes, g_byte0, g_byte0_valid, g_json_slot_error, g_json_slot_body, g_json_slot_other)
+                    g_closes, g_byte0, g_byte0_valid, g_json_slot_error, g_json_slot_body, g_json_slot_other, g_now)
   /* the connection is always closed exactly once, at most one reply is written, and the handler is always accounted for */ /*@C19*/
   __CPROVER_ensures(g_closes == 1 && g_replies <= 1 && self->thread_count_ == __CPROVER_old(self->thread_count_) - 1)
   __CPROVER_ensures(LOCKS_WF && ghost_exc == 0)
+  /* whatever the client sends and however slowly, the handler is gone before the 5 s that ~Stats is prepared to wait (else it aborts the daemon) */
+  __CPROVER_ensures(g_now.sec - __CPROVER_old(g_now.sec) <= 4) /*@C19*/
   /* the reply's error field depends on the FIRST byte only: g / r / 0 -> 0, anything else (or nothing) -> 1 */ /*@C19*/
 #define EXPECTED_ERR ((g_byte0_valid && (g_byte0 == 'g' || g_byte0 == 'r' || g_byte0 == '0')) ? 0 : 1)
   __CPROVER_ensures(g_replies == 1 ? (g_json_slot_error == (json_t)EXPECTED_ERR) : 1);
 #define LOOPC_Stats__processMsg_1 \
-  __CPROVER_assigns(num_read, mode, byte_buf, g_reads, g_byte0, g_byte0_valid) \
+  __CPROVER_assigns(num_read, mode, byte_buf, g_reads, g_byte0, g_byte0_valid, g_now) \
   __CPROVER_loop_invariant(0 <= num_read && num_read <= 32 && g_reads == (uint64_t)num_read && g_closes == 0 && g_replies == 0) \
   __CPROVER_loop_invariant(num_read >= 1 ? (mode == g_byte0 && g_byte0_valid) : (mode == 'a' && !g_byte0_valid)) \
+  __CPROVER_loop_invariant(g_now.nsec >= 0 && g_now.nsec < 1000000000 && g_now.sec >= 0 && g_now.sec <= deadline.sec + 2) \
   __CPROVER_decreases(32 - num_read)
 #define LOOPC_Stats__processMsg_2 \
   __CPROVER_assigns(__begin2, g_json_slot_other) \
@@ -121,7 +134,7 @@ void Stats__processMsg(Stats *self, int sockfd)
   __CPROVER_decreases(__begin2.n - __begin2.pos)
 #define CANARY __CPROVER_assert(0, "canary: contract precondition satisfiable and function exit reachable")
 #define HAVOC_ST() do { HAVOC(g_held_stats); HAVOC(g_held_thread); HAVOC(g_stats_locks); HAVOC(g_K); HAVOC(g_k_in); HAVOC(g_k_val); HAVOC(g_map_n); HAVOC(g_kpos); \
-  HAVOC(g_reads); HAVOC(g_replies); HAVOC(g_closes); HAVOC(ghost_exc); } while (0)
+  HAVOC(g_reads); HAVOC(g_replies); HAVOC(g_closes); HAVOC(g_now); HAVOC(ghost_exc); } while (0)
 /* ---- startSocket: an unusable or over-long socket path is an initialisation failure, never memory corruption ---- */
 uint64_t __CPROVER_uninterpreted_strlen(str_t);
 uint64_t str_t__size(str_t s) { return __CPROVER_uninterpreted_strlen(s); }
